@@ -77,6 +77,10 @@ func poolSeedArgs(seed int64, cls string, v int) (string, string) {
 		return compatStrings[r.intn(len(compatStrings))], reorderStrings[r.intn(len(reorderStrings))]
 	case "long":
 		return strOfLen(r, 300, false), strOfLen(r, 200, true)
+	case "lit1": // two argument pairs whose password||"mnemonic"||passphrase concatenations coincide
+		return "wallet", "seed" + "mnemonic" + "TREZOR" + string(rune('0'+v))
+	case "lit2":
+		return "wallet" + "mnemonic" + "seed", "TREZOR" + string(rune('0'+v))
 	}
 	fatal("unknown seed class", cls)
 	return "", ""
